@@ -2,5 +2,5 @@
 using namespace smooth;
 MC_SUBCHECK(bundle)
 {
-  c15::run<Bundle<SO3d, Eigen::Vector3d>>("Bundle<SO3,T3>d", 3, 4);
+  c15::run<Bundle<SO3d, Eigen::Vector3d>>("Bundle<SO3,T3>d", 3, 5);
 }
